@@ -111,6 +111,10 @@ func (c *FenceConn) BeginTx(ctx context.Context, opts driver.TxOptions) (driver.
 	if !tm.IsSeataContext(ctx) {
 		return nil, errors.New("there is not seata context")
 	}
+	if tm.GetBusinessActionContext(ctx) == nil {
+		// (a TCC method called outside a global transaction: there is no branch a fence record could belong to)
+		return nil, errors.New("there is no branch of a global transaction in the seata context")
+	}
 
 	tx, err := beginer.BeginTx(ctx, opts)
 	if err != nil {
@@ -154,10 +158,20 @@ func (c *FenceConn) BeginTx(ctx context.Context, opts driver.TxOptions) (driver.
 	if proceed, err = doFence(ctx, fenceTx); err != nil {
 		return nil, err
 	}
+	if !proceed && tm.IsFenceApplied(ctx) {
+		// it is this very delivery that applied the phase, in a transaction it has committed since: it goes on with
+		// a second one, which is a plain transaction
+		tm.SetFenceTxBeginedFlag(ctx, false)
+		if rerr := fenceTx.Rollback(); rerr != nil {
+			log.Error(rerr)
+		}
+		return tx, nil
+	}
 	if !proceed {
 		// the business of this delivery must not run, and the caller of BeginTx runs it on the transaction it is
 		// handed: it gets none. What the fence wrote stays (the suspension record of a rollback before its try).
 		tm.SetFenceTxBeginedFlag(ctx, false)
+		tm.SetFenceNothingToDo(ctx, true)
 		if cerr := fenceTx.Commit(); cerr != nil {
 			if rerr := tx.Rollback(); rerr != nil {
 				log.Error(rerr)
